@@ -24,15 +24,15 @@ Check (C09_field_extraction : forall fl n rho e path d d',
 Check (C09_field_extraction_lazy : forall fl path rho e d,
   (exists n, run fl n rho (gets e path) = Ok d) <-> (exists m, extract fl m rho e path = Ok d)).
 Check (C09_need_refines_name_partial : forall fl n t r h,
-  forallb (fun p => acyclic (snd p)) fl = true -> acyclic t = true ->
+  forallb (fun p => wft (snd p)) fl = true -> wft t = true ->
   runN fl Good n t = (r, h) -> r <> OutOfFuel -> r <> Err InfiniteRec ->
   exists m, run fl m [] t = r).
 Check (C09_need_extract_refines_name_partial : forall fl n t path r h,
-  forallb (fun p => acyclic (snd p)) fl = true -> acyclic t = true ->
+  forallb (fun p => wft (snd p)) fl = true -> wft t = true ->
   extractN fl Good n t path = (r, h) -> r <> OutOfFuel -> r <> Err InfiniteRec ->
   exists m, extract fl m [] t path = r).
-Check (C09_need_wrongcell_refuted : exists t, acyclic t = true /\ ~ refines_on [] WrongCell t).
-Check (C09_need_callerenv_refuted : exists t, acyclic t = true /\ ~ refines_on [] CallerEnv t).
+Check (C09_need_wrongcell_refuted : exists t, wft t = true /\ acyclic t = true /\ ~ refines_on [] WrongCell t).
+Check (C09_need_callerenv_refuted : exists t, wft t = true /\ acyclic t = true /\ ~ refines_on [] CallerEnv t).
 (* the definitions the statements unfold to *)
 Check (eq_refl : run_equiv = fun fl rho1 t1 rho2 t2 =>
   oequiv (fun n => run fl n rho1 t1) (fun n => run fl n rho2 t2)).
